@@ -81,6 +81,10 @@ def corrupt(module: str, e: dict) -> dict:
             e["renders"][-1]["out"] = "bogus"
     elif m == "J_Replace":
         e["rep"] = drop_mid(e["rep"])
+    elif m == "J_Sel":
+        e["items"] = e["items"][:-1] if e["items"] else [["", "zz"]]
+    elif m == "J_C12S":
+        e["aliases"] = e["aliases"] + [["ORDER BY", "ala"]]
     elif m == "J_Meta":
         if e["kind"] == "agg":
             e["obs"] = {"T": "F", "F": "N", "N": "T"}[e["obs"]]
